@@ -194,10 +194,12 @@ fpPatchExpr(Foam expr, Bool envOK)
           case FOAM_OCall:
 		if (foamTag(expr->foamOCall.env) == FOAM_Env) {
 			fpPatchExpr(expr->foamOCall.env, true);
-			fpPatchExpr(expr->foamClos.prog, false);
+			fpPatchExpr(expr->foamOCall.op, false);
 			for (i=0; i<foamArgc(expr) - 3; i++)
-				fpPatchExpr(expr->foamClos.prog, false);
+				fpPatchExpr(expr->foamOCall.argv[i], false);
 		}
+		else
+			foamIter(expr, arg, fpPatchExpr(*arg, false));
                 break;
 	  default:
 		foamIter(expr, arg, fpPatchExpr(*arg, false));
